@@ -17,6 +17,7 @@ var (
 	MQTTFunc          func(opts interface{}) interface{}
 	YieldFunc         func(site string)
 	BeforeLockFunc    func(mu interface{}, write bool)
+	BeforeTryFunc     func(try func() bool)
 	WillSpawnFunc     func() uint64
 	GoStartFunc       func(id uint64)
 	GoEndFunc         func()
@@ -64,6 +65,14 @@ func Yield(site string) {
 func BeforeLock(mu interface{}, write bool) {
 	if BeforeLockFunc != nil {
 		BeforeLockFunc(mu, write)
+	}
+}
+
+// BeforeTry is BeforeLock for any lock: try reports whether the lock could be taken right now.
+// It is called by scheduling points that the simulation inserts into a scratch copy of the sources.
+func BeforeTry(try func() bool) {
+	if BeforeTryFunc != nil {
+		BeforeTryFunc(try)
 	}
 }
 
